@@ -111,6 +111,36 @@ theorem default_locations_inverse (cs : List Bytes) (input : CPath) (n nt : Byte
   · exact default_locations_inverse_rel cs input n nt hrel hfn
   · exact default_locations_inverse_abs _ r n nt hrel hfn
 
+/-- every path text has the shape the theorems ask for: `Path::components()` yields a root only in
+front, and then no further root (nor `.`) -/
+theorem comps_shape (p : Bytes) : InputShape (comps p) := by
+  have hbody : Rel ((splitSlash p).filterMap segToPC) := by
+    intro c hc
+    simp only [List.mem_filterMap] at hc
+    obtain ⟨seg, _, hseg⟩ := hc
+    unfold segToPC at hseg
+    split at hseg
+    · cases hseg
+    · split at hseg
+      · cases hseg
+      · split at hseg <;> (simp only [Option.some.injEq] at hseg; subst hseg; intro h; cases h)
+  unfold comps
+  simp only
+  split
+  · exact Or.inr ⟨_, rfl, hbody⟩
+  · split
+    · exact Or.inl (rel_cons.mpr ⟨(by intro h; cases h), hbody⟩)
+    · exact Or.inl hbody
+
+/-- the same for path *texts*: whatever is typed after `--input` -/
+theorem default_locations_inverse_text (cs : List Bytes) (inputText n nt : Bytes)
+    (hne : comps inputText ≠ [])
+    (hfn : fileName (resolve (PC.root :: nm cs) (comps inputText)) = some n) :
+    resolve (PC.root :: nm cs)
+        (contentRoot none none (some (torrentPath (comps inputText) [PC.normal nt])) [PC.normal n])
+      = resolve (PC.root :: nm cs) (comps inputText) :=
+  default_locations_inverse cs (comps inputText) n nt hne (comps_shape inputText) hfn
+
 /-- with the name `create` itself picks -/
 theorem created_default_verifies_in_place (cs : List Bytes) (input out : CPath) (n : Bytes)
     (hne : input ≠ []) (hshape : InputShape input)
